@@ -3,6 +3,7 @@ import HdVerif.Proofs.Bits
 import HdVerif.Proofs.Codec
 import Mathlib.Tactic.Ring
 import Mathlib.Tactic.Linarith
+import Mathlib.Tactic.Push
 /-! Helper lemmas for C19: the loop nest of the parametric map constructor, cells and byte ranges, the
 structure of `build`, the image pixel module block of `SCImage`. -/
 namespace HdVerif.PMap
@@ -702,5 +703,48 @@ theorem mem_attributeValues (x : PMInput) (a d : Nat) (ha : a < x.n) (u : List R
   simp only [List.mem_filterMap, List.mem_range]
   exact ⟨a, ha, hu⟩
 
+
+/-! ### real-world value mappings: constructor rules, totality on the mapped range -/
+
+theorem rwvmInit_iff (lut slope icpt : Option Int) (isf : Bool) (first last r : Int) :
+    rwvmInit lut slope icpt isf first last = .ok r ↔
+      (r = 1 ∧ ∃ n, lut = some n ∧ slope = none ∧ icpt = none ∧ isf = false ∧ n = last - first + 1) ∨
+      (r = 2 ∧ lut = none ∧ slope.isSome = true ∧ icpt.isSome = true) := by
+  unfold rwvmInit
+  cases lut <;> cases slope <;> cases icpt <;> simp <;> grind
+
+/-- a well-formed look-up table mapping defines a value for every stored value of its range -/
+theorem lut_defined_in_range (mp : Mapping) (f l : Int) (hl : mp.isLut = true) (hf : mp.first = (f : Rat))
+    (hlen : (mp.lut.length : Int) = l - f + 1) (v : Int) (hv : f ≤ v ∧ v ≤ l) :
+    ∃ y, mp.lut[(v - f).toNat]? = some y ∧ applyMapping mp [v] = .ok [y] := by
+  have hidx : (v - f).toNat < mp.lut.length := by omega
+  refine ⟨mp.lut[(v - f).toNat], List.getElem?_eq_getElem hidx, ?_⟩
+  unfold applyMapping
+  rw [if_pos hl]
+  simp only [List.mapM_cons, List.mapM_nil, hf]
+  have e : ((v : Rat) - (f : Rat)) = (((v - f : Int)) : Rat) := by push_cast; rfl
+  rw [e]
+  have hnn : ¬ ((((v - f : Int)) : Rat) < 0 ∨ (((v - f : Int)) : Rat).den ≠ 1) := by
+    push Not
+    constructor
+    · have : (0 : Int) ≤ v - f := by omega
+      exact_mod_cast this
+    · exact Rat.den_intCast _
+  simp only [hnn, ↓reduceIte, Rat.num_intCast, List.getElem?_eq_getElem hidx]
+  rfl
+
+/-- a linear mapping maps every stored value of its range -/
+theorem linear_defined_in_range (mp : Mapping) (hl : mp.isLut = false) (v : Int)
+    (hv : mp.first ≤ (v : Rat) ∧ (v : Rat) ≤ mp.last) :
+    applyMapping mp [v] = .ok [(v : Rat) * mp.slope + mp.intercept] := by
+  unfold applyMapping
+  have h1 : ¬ (mp.isLut = true) := by simp [hl]
+  rw [if_neg h1]
+  have : ([v].any fun (w : Int) => decide ((w : Rat) < mp.first ∨ mp.last < (w : Rat))) = false := by
+    simp only [List.any_cons, List.any_nil, Bool.or_false, decide_eq_false_iff_not]
+    push Not
+    exact ⟨hv.1, hv.2⟩
+  rw [this]
+  rfl
 
 end HdVerif.PMap
